@@ -12,7 +12,7 @@ use flsrc::uci::Flounder;
 use refchess::{Kind, Mv, Pos};
 use serde_json::{json, Value};
 
-pub const RULE: &str = "game histories with controlled multiplicities: from startpos or a generated valid FEN, a random prefix, then shuffle cycles (both sides move a man out and back, 0..3 full cycles, knight/king/rook/bishop/queen shuffles, with and without lost castling rights, vanished ep squares or an intervening irreversible move) and a partial cycle, so that the candidate successors of the final position P have 0, 1, 2 or >=3 earlier occurrences; 1..2 position commands on a fresh engine (only the last one's history may count; in a fifth of the cases the game is given first and then its final position again as a bare 'position fen …' / 'position startpos' without moves, whose history is that single position). Oracle (value level, through the real command path): 'position ...' then 'go depth 1'; the score of the completed depth-1 iteration must equal max over legal m of ( n(m) >= 2 ? 0 : -Q(P·m) ), Q = reference quiescence value, n(m) = occurrences of P·m in the most recent command's history. Successors whose count differs between the rule-book identity (ep only if capturable) and the exact-field identity are not judged. Non-trivial = the case discriminates (value with the draw rule != value without it, or a successor seen exactly once keeps its real non-zero value while deciding the maximum) ; distinct by command text. Part 'interrupted': the same oracle after 1..3 searches of the judged position that were cut off by a node deadline (mostly inside their first iterations) with no position command in between (a judged search that used a cached result is excluded). Part 'two-components' (ENUMERATED, 1024 histories): a double pawn push on every file, then rook, king or knight shuffles of both sides (every combination of lost rights) after which the position comes back WITHOUT its en-passant square AND without a castling right (two components differ at once: a different position by any reading), stopped one move before that later position would occur the second time: its value must be the real one. Part 'veteran': the same depth-1 oracle on an engine that keeps searching heavy middlegame positions in between (chunks of 1.4 M nodes ended by a node deadline; 9 chunks per engine quick, 40 thorough), one few-men case after every chunk — the tables hold hundreds of thousands of entries by then (maximum reported), nothing of which the case may use (a judged search that used a cached result is excluded). Part 'deep' (values two and three plies down): the same kind of game (mostly 3..6 men, often one or two plies off the shuffle cycle so that the twice-seen positions lie two or three plies below the root), then 'go depth 2|3' on a fresh engine; EVERY completed iteration i must report V_h(P,i) = plain minimax over the reference rules in which any position below the root that the judged history already shows twice is worth 0, leaves by the reference quiescence (with depth <= 3 no position can recur inside the line itself, and the deeper-entry-reuse counter must be 0). Cases whose value differs between the two identities of positions are not judged. Non-trivial there = the rule applied one ply below the root only would give another value (a draw two or three plies down decides), or an abandoned earlier game would; distinct by (command text, depth).";
+pub const RULE: &str = "game histories with controlled multiplicities: from startpos or a generated valid FEN, a random prefix, then shuffle cycles (both sides move a man out and back, 0..3 full cycles, knight/king/rook/bishop/queen shuffles, with and without lost castling rights, vanished ep squares or an intervening irreversible move) and a partial cycle, so that the candidate successors of the final position P have 0, 1, 2 or >=3 earlier occurrences; 1..2 position commands on a fresh engine (only the last one's history may count; in a fifth of the cases the game is given first and then its final position again as a bare 'position fen …' / 'position startpos' without moves, whose history is that single position). Oracle (value level, through the real command path): 'position ...' then 'go depth 1'; the score of the completed depth-1 iteration must equal max over legal m of ( n(m) >= 2 ? 0 : -Q(P·m) ), Q = reference quiescence value, n(m) = occurrences of P·m in the most recent command's history. Successors whose count differs between the rule-book identity (ep only if capturable) and the exact-field identity are not judged. Non-trivial = the case discriminates (value with the draw rule != value without it, or a successor seen exactly once keeps its real non-zero value while deciding the maximum) ; distinct by command text. Part 'interrupted': the same oracle after 1..3 searches of the judged position that were cut off by a node deadline (mostly inside their first iterations) with no position command in between; half of the cases are judged by 'go depth 1' (excluded when it used a cached result), half by 'go depth 2|3' with the oracle of the part 'deep' (what the cut searches cached is true for this very history; excluded only when a DEEPER cached result was used). Part 'two-components' (ENUMERATED, 1024 histories): a double pawn push on every file, then rook, king or knight shuffles of both sides (every combination of lost rights) after which the position comes back WITHOUT its en-passant square AND without a castling right (two components differ at once: a different position by any reading), stopped one move before that later position would occur the second time: its value must be the real one. Part 'veteran': the same depth-1 oracle on an engine that keeps searching heavy middlegame positions in between (chunks of 1.4 M nodes ended by a node deadline; 9 chunks per engine quick, 40 thorough), one few-men case after every chunk — the tables hold hundreds of thousands of entries by then (maximum reported), nothing of which the case may use (a judged search that used a cached result is excluded). Part 'deep' (values two and three plies down): the same kind of game (mostly 3..6 men, often one or two plies off the shuffle cycle so that the twice-seen positions lie two or three plies below the root), then 'go depth 2|3' on a fresh engine; EVERY completed iteration i must report V_h(P,i) = plain minimax over the reference rules in which any position below the root that the judged history already shows twice is worth 0, leaves by the reference quiescence (with depth <= 3 no position can recur inside the line itself, and the deeper-entry-reuse counter must be 0). Cases whose value differs between the two identities of positions are not judged. Non-trivial there = the rule applied one ply below the root only would give another value (a draw two or three plies down decides), or an abandoned earlier game would; distinct by (command text, depth).";
 
 pub fn reversible(p: &Pos, m: &Mv) -> bool {
     let i = p.info(*m);
@@ -562,11 +562,22 @@ pub fn judge_deep(cmds: &[String], judged_history: &[Pos], old_history: Option<&
         for c in &cmds {
             fl.verif_handle_command(c);
         }
+        // part 'interrupted': searches of the same position cut off by their (node) deadline first,
+        // no position command in between.  What they cached is true for this very history, so only a
+        // DEEPER cached result makes the judged values ambiguous (excluded below)
+        for (d, k) in INTERRUPTIONS.with(|i| i.borrow().clone()) {
+            let sr = fl.verif_searcher();
+            sr.verif_set_node_limit(Some(k));
+            sr.verif_set_hard_cap(Some(k + 3_000_000));
+            fl.verif_handle_command(&format!("go depth {}", d));
+            fl.verif_searcher().verif_set_node_limit(None);
+        }
+        let deeper0 = fl.verif_searcher().verif.tt_deeper_hits.get();
         let hist_len = fl.verif_searcher().verif_repetition_snapshot().len();
         fl.verif_searcher().verif_set_hard_cap(Some(6_000_000));
         fl.verif_handle_command(&format!("go depth {}", depth));
         let infos = fl.verif_searcher().verif_timer().verif.infos.borrow().clone();
-        let deeper = fl.verif_searcher().verif.tt_deeper_hits.get();
+        let deeper = fl.verif_searcher().verif.tt_deeper_hits.get() - deeper0;
         (hist_len, infos, deeper)
     }));
     let (hist_len, infos, deeper) = match r {
@@ -644,10 +655,20 @@ fn check_interrupted(bytes: &[u8], stats: &mut Stats) -> Verdict {
     let mut s = Src::new(bytes);
     let n = 1 + s.below(3);
     let ints: Vec<(u8, u64)> = (0..n).map(|_| (2 + s.below(3) as u8, match s.below(4) { 0 => 1 + s.below(6) as u64, 1 | 2 => 2 + s.below(60) as u64, _ => 20 + s.below(600) as u64 })).collect();
-    let Some(c) = build_case(&bytes[bytes.len().min(8)..], false, stats) else { return Ok(()) };
+    // half of the cases: the judged search goes deeper (2..3) than the cut searches got, so that it
+    // really searches the root again instead of answering from the root entry they cached
+    let deep = s.bool();
+    let depth = 2 + s.below(2) as u8;
+    let Some(c) = build_case(&bytes[bytes.len().min(8)..], deep, stats) else { return Ok(()) };
+    let small = c.judged_history.last().map(|p| p.men()).unwrap_or(32) <= 12;
+    let (deep, depth) = (deep && (small || depth == 2), if small { depth } else { 2 });
+    let ints: Vec<(u8, u64)> = if deep { ints.iter().map(|(d, k)| ((*d).min(depth + 1), 3 + (*k % 400))).collect() } else { ints };
     INTERRUPTIONS.with(|i| *i.borrow_mut() = ints.clone());
-    let r = judge(&c.cmds, &c.judged_history, c.old_history.as_deref(), stats);
+    let r = if deep { judge_deep(&c.cmds, &c.judged_history, c.old_history.as_deref(), depth, stats) } else { judge(&c.cmds, &c.judged_history, c.old_history.as_deref(), stats) };
     INTERRUPTIONS.with(|i| i.borrow_mut().clear());
+    if deep && r.is_ok() {
+        stats.class("judged_at_depth_2_3_after_interrupted_searches_of_the_same_position");
+    }
     match r {
         Ok(()) => {
             stats.class("judged_after_interrupted_searches_of_the_same_position");
@@ -655,7 +676,7 @@ fn check_interrupted(bytes: &[u8], stats: &mut Stats) -> Verdict {
         }
         Err(mut f) => {
             f.detail["searches_cut_off_before_the_judged_go_(depth,node_deadline)"] = json!(ints);
-            f.detail["replay"] = json!({"interruptions": ints});
+            f.detail["replay"] = if deep { json!({"interruptions": ints, "go_depth": depth}) } else { json!({"interruptions": ints}) };
             f.sig = format!("{}-after-interrupted-searches", f.sig);
             Err(f)
         }
@@ -878,6 +899,16 @@ pub fn replay(part: &str, bytes: &[u8], case: &Value, stats: &mut Stats) -> Verd
         if let Some(last) = cmds.last() {
             if let Ok(game) = crate::script::ref_position(last) {
                 let deep = case.get("go_depth").or_else(|| case.get("replay").and_then(|r| r.get("go_depth"))).and_then(|d| d.as_u64());
+                if let Some(ints) = case.get("replay").and_then(|r| r.get("interruptions")).and_then(|x| x.as_array()) {
+                    let v: Vec<(u8, u64)> = ints.iter().filter_map(|p| Some((p.get(0)?.as_u64()? as u8, p.get(1)?.as_u64()?))).collect();
+                    INTERRUPTIONS.with(|i| *i.borrow_mut() = v);
+                    let r = match deep {
+                        Some(d) => judge_deep(&cmds, &game, None, d as u8, stats),
+                        None => judge(&cmds, &game, None, stats),
+                    };
+                    INTERRUPTIONS.with(|i| i.borrow_mut().clear());
+                    return r;
+                }
                 if let Some(d) = deep {
                     return judge_deep(&cmds, &game, None, d as u8, stats);
                 }
